@@ -310,6 +310,10 @@ def run(chk: Check):
     rule_l4(chk, ix)
     from .c03 import rule_t1
     rule_t1(chk, ix)
+    # which lines a string token spans is decided by the continuation tests (C09 K6)
+    from .c09 import rule_k6
+    from .. import constfold
+    rule_k6(chk, constfold.fold_tokenize(), ix, chk.tier == "thorough")
     chk.floor("L2-accumulation", 10)
     chk.floor("L3-coverage", 15)
     chk.floor("L4-block-structure", 4)
